@@ -15,10 +15,11 @@
 (* (AddStmt), so every body of length <= MaxBody over the alphabet is explored.        *)
 (* The Machine is judged by the same Reference (TestSmellRef!Diff) that judges the     *)
 (* real code in TestSmell_Trace.                                                       *)
-(* Repaired = TRUE models the tree after the two proposed repairs (C11-1: the filter   *)
-(* requires .java; C11-2: every annotation of a method is captured); FALSE models the  *)
-(* unrepaired code (TestSmell_MC_unrepaired.cfg shows the Machine reproducing the      *)
-(* defects the conformance run found).                                                 *)
+(* Repaired = TRUE models the tree after the three proposed repairs (C11-1: the filter *)
+(* requires .java; C11-2: every annotation of a method is captured; C11-3: a helper    *)
+(* called as `this.helper()` is inlined too); FALSE models the unrepaired code         *)
+(* (TestSmell_MC_unrepaired.cfg shows the Machine reproducing the defects the          *)
+(* conformance run found).                                                             *)
 EXTENDS TestSmellRef, Json
 
 CONSTANTS MaxBody,       \* statements in the test method
@@ -57,6 +58,7 @@ Sym(a) ==
     [] a = "eqAssert"   -> S(C("", "assertEquals", <<L("true"), L("true")>>))
     [] a = "eqPlain"    -> S(C("calc", "same", <<L("a"), L("a")>>))
     [] a = "helper"     -> S(C("", "helper", <<>>))
+    [] a = "thisHelper" -> S(C("this", "helper", <<>>))
     [] a = "plain"      -> S(C("calc", "add", <<L("1"), L("2")>>))
     [] a = "nested"     -> S(C("", "assertEquals", <<N(C("calc", "get", <<>>)), L("3")>>))
     [] a = "new"        -> S([recv |-> "", f |-> "Calc", new |-> TRUE, args |-> <<>>])
@@ -91,13 +93,15 @@ PathOf(k) ==
     [] k = "mavenMain"     -> [dirs |-> <<"src", "main", "java", "p">>, cls |-> "CalcTester"]
 
 Cls == PathOf(path).cls
+\* the part of the input file that decides whether it is a test file and how it is named
+FileId == [dirs |-> PathOf(path).dirs, name |-> Cls \o ".java"]
 Methods ==
   <<[name |-> "t", annos |-> AnnosOf(annos), body |-> body]>> \o
   (IF hkind = "none" THEN <<>> ELSE <<[name |-> "helper", annos |-> <<>>, body |-> HelperBody(hkind)]>>)
 
 InputFile == [dirs |-> PathOf(path).dirs, name |-> Cls \o ".java", pkg |-> "p", cls |-> Cls,
               imports |-> <<"org.junit.Test", "org.junit.Ignore", "static org.junit.Assert.assertEquals">>,
-              fields |-> <<>>, methods |-> Methods]
+              classAnnos |-> <<>>, fields |-> <<>>, methods |-> Methods]
 InputRec == [layout |-> IF Len(InputFile.dirs) >= 3 THEN "maven" ELSE "flat", via |-> "api", style |-> 0,
              files |-> <<InputFile>>, extras |-> <<>>]
 
@@ -200,7 +204,8 @@ SkipMethod ==
                  currentMethodCalls, ai, index, hasAssert, methodCallMap, results>>
 
 \* updateMethodCallsForSelfCall: append the calls of every same-class callee found in callMethodMap
-SelfCallee(c) == IF NodeName(c) = Cls /\ ~c.new
+\* (`this.helper()` is recorded with NodeName "this"; repair C11-3 resolves it to the class itself)
+SelfCallee(c) == IF ~c.new /\ (NodeName(c) = Cls \/ (Repaired /\ NodeName(c) = "this"))
                  THEN {j \in DOMAIN Methods : Methods[j].name = FunctionName(c)} ELSE {}
 RECURSIVE Inlined(_, _)
 Inlined(cs, k) == IF k > Len(cs) THEN <<>>
@@ -216,7 +221,7 @@ EnterMethod ==
   /\ UNCHANGED <<path, annos, hkind, body, entries, files, panic, captured, todo,
                  index, hasAssert, methodCallMap, results>>
 
-Finding(type, line) == [file |-> Path(InputFile), type |-> type, line |-> line]
+Finding(type, line) == [file |-> Path(FileId), type |-> type, line |-> line]
 
 \* `for _, annotation := range method.Annotations`: checkIgnoreTest, checkEmptyTest
 AnnotationStep ==
@@ -308,10 +313,10 @@ MachineRec == [input |-> InputRec, facts |-> MachineFacts,
 C11_FindingsExact == Finished => {it \in Diff(MachineRec) : it.tags = {}} = {}
 
 \* a file that is not a test file never produces a finding (at no point of the run)
-C11_OnlyTestFiles == ~IsTestFile(InputFile) => results = <<>>
+C11_OnlyTestFiles == results # <<>> => IsTestFile(FileId)
 
 \* every finding names the file of the class it was found in
-C11_FileAttribution == \A k \in DOMAIN results : results[k].file = Path(InputFile)
+C11_FileAttribution == results # <<>> => LET p == Path(FileId) IN \A k \in DOMAIN results : results[k].file = p
 
 \* the call loop never runs past the list, the `last` check happens at most once per method
 C11_LoopBounds == index <= Len(currentMethodCalls) + 1 /\ ai <= Len(AnnosOf(annos)) + 1
